@@ -210,6 +210,53 @@ func (g *gen) loopEnvVars(fr *frame, h *ssa.BasicBlock, phiVals map[*ssa.Phi]Val
 			}
 		}
 	}
+	// Loop style tolerance. In "for i := range xs" the source variable i exists only inside the body
+	// (it is $idx+1 there); at the header it means "number of completed iterations", which is what i
+	// means at the header of "for i := 0; i < n; i++". Conversely $idx of a three-clause loop is i-1.
+	for _, in := range h.Instrs {
+		p, ok := in.(*ssa.Phi)
+		if !ok {
+			continue
+		}
+		pvv, ok := phiVals[p].(string)
+		if !ok {
+			continue
+		}
+		if p.Comment == "rangeindex" {
+			// the body value phi+1 carries the name of the index variable
+			if refs := p.Referrers(); refs != nil {
+				for _, r := range *refs {
+					bo, ok := r.(*ssa.BinOp)
+					if !ok || bo.Op != token.ADD || bo.X != ssa.Value(p) {
+						continue
+					}
+					for name, cands := range names {
+						if _, bound := out[name]; bound {
+							continue
+						}
+						for _, c := range cands {
+							if c == ssa.Value(bo) {
+								out[name] = binding{app("+", pvv, "1"), xtInt}
+							}
+						}
+					}
+				}
+			}
+		} else if _, has := out["$idx"]; !has && p.Comment != "" && isIntType(p.Type()) {
+			// induction variable of a three-clause loop: incremented by one on the back edge
+			for ei, pred := range h.Preds {
+				if !fr.li.body[h][pred] {
+					continue
+				}
+				if bo, ok := p.Edges[ei].(*ssa.BinOp); ok && bo.Op == token.ADD && bo.X == ssa.Value(p) {
+					if cst, ok := bo.Y.(*ssa.Const); ok && cst.Value != nil && cst.Value.ExactString() == "1" {
+						out["$idx"] = binding{app("-", pvv, "1"), xtInt}
+						out[fmt.Sprintf("$idx%d", fr.li.headers[h])] = binding{app("-", pvv, "1"), xtInt}
+					}
+				}
+			}
+		}
+	}
 	// map iteration of this header: $mi, $mn, $mk, $midx
 	for _, in := range h.Instrs {
 		if nx, ok := in.(*ssa.Next); ok {
@@ -545,6 +592,13 @@ func (g *gen) loopSpecFor(fr *frame, ord int) *LoopSpec {
 	if fs := g.P.spec.Funcs[funcKey(fr.fn)]; fs != nil {
 		return fs.Loops[ord]
 	}
+	// A loop of an uncontracted helper that is executed in place: the loop clauses of the function under
+	// contract apply to it, numbered after that function's own loops (so that moving a loop into a
+	// helper, or back, keeps the proof).
+	if g.fn != nil {
+		own := len(computeLoops(g.fn, g.P.sprog.Fset).headers)
+		return g.fs.Loops[own+ord]
+	}
 	return nil
 }
 
@@ -773,4 +827,9 @@ func (g *gen) checkLoopFrame(n *node, st, hst *State, excl map[string][]string, 
 		}
 		g.addObl(n, "loop-frame", prefix+":"+name, "loop modifies clause", pos, implies(and(conds...), frameTerm(name, srt, nt, ot, nx0, excl[name], false)), false)
 	}
+}
+
+func isIntType(t types.Type) bool {
+	b, ok := t.Underlying().(*types.Basic)
+	return ok && b.Info()&types.IsInteger != 0
 }
